@@ -19,6 +19,7 @@ type orC04 struct {
 	flipAHost    string
 	prevList     []string
 	notReplSince map[string]time.Duration
+	backlogAt    map[string]time.Duration // per host: last instant with a large download backlog
 	firstEval    map[string]time.Duration // per host: start of the first membership evaluation while it was not replicating
 	evalCount    map[string]int
 	evalInc      string
@@ -101,6 +102,15 @@ func (o *orC04) trackRepl() {
 		if !sv.Registered || sv.Name == m.master {
 			delete(o.notReplSince, sv.Name)
 			continue
+		}
+		// download backlog (what the master has and the replica has not received), in bytes
+		if mst := s.mysql.servers[m.master]; mst != nil && m.primary["C04"] && sv.Up && sv.HasChannel {
+			if back := (mst.Executed.Count() - sv.Holds().Count()) * s.spec.World.TxnSize; back >= s.spec.Cfg.SemiSyncEnableLag/4 && back > 0 {
+				if o.backlogAt == nil {
+					o.backlogAt = map[string]time.Duration{}
+				}
+				o.backlogAt[sv.Name] = s.now()
+			}
 		}
 		ok := sv.Up && sv.HasChannel && sv.Source == m.master && sv.IORun && !sv.IOConnecting && sv.SQLRun
 		if ok {
@@ -431,14 +441,20 @@ func (o *orC04) onlyStaleEffective() bool {
 
 // laggingListed: a member of the published list (other than the master) whose semi-sync slave flag is
 // off - the signature of the deliberate "data lagging replicas do not count" rule
+// laggingListed: a listed replica without semi-sync which has been far behind in download (a
+// good part of semi_sync_enable_lag) during the last passes - the case mysync deliberately lists
+// without counting. A listed replica without semi-sync that was never behind is another matter.
 func (o *orC04) laggingListed() bool {
 	m := o.m
+	cfg := &m.s.spec.Cfg
 	for _, h := range m.active {
 		if h == m.master {
 			continue
 		}
 		if sv := m.s.mysql.servers[h]; sv != nil && sv.Up && !sv.SSSlave {
-			return true
+			if at, ok := o.backlogAt[h]; ok && m.s.now()-at <= 3*ms(cfg.TickMs)+2*time.Second {
+				return true
+			}
 		}
 	}
 	return false
